@@ -171,3 +171,43 @@ func vfH_C13_trace() {
 		vfrt.Reach("trace-two-exchanges")
 	}
 }
+
+//vf:assume C13-upstream-reject: a CONNECT through a static upstream proxy whose reply to the proxy's CONNECT is 200 (tunnel runs to completion), 407, 502, nothing (end of stream) or garbage: whatever the outcome, the connection dialled to the upstream is closed by the time the client connection is done (so the dialer's active gauge, which follows Close, returns to zero) and the exchange is reported complete once
+
+//vf:harness property=C13 nopanic reach=upstream-reject-closed,upstream-accept-closed steps=8000000
+func vfH_C13_upstream_reject() {
+	cfg := HTTPProxyConfig{}
+	cfg.Name = "fw"
+	cfg.ProxyLocalhost = AllowProxyLocalhost
+	cfg.UpstreamProxy, _ = url.Parse("http://proxy.internal:3128")
+	hp := vfNewHTTPProxy(cfg)
+	kind := vfrt.Choice("upstream-reply", 5)
+	reply := []string{"HTTP/1.1 200 Connection established\r\n\r\nworld", "HTTP/1.1 407 Proxy Authentication Required\r\nContent-Length: 0\r\n\r\n",
+		"HTTP/1.1 502 Bad Gateway\r\nContent-Length: 3\r\n\r\nbad", "", "garbage\r\n\r\n"}[kind]
+	upstream := martian.NewVfConn([]byte(reply))
+	dials := 0
+	hp.proxy.DialContext = func(context.Context, string, string) (net.Conn, error) {
+		dials++
+		return upstream, nil
+	}
+	reads, wrotes := 0, 0
+	hp.proxy.Trace = &martian.ProxyTrace{
+		ReadRequest: func(info martian.ReadRequestInfo) {
+			if info.Err == nil && info.Req != nil {
+				reads++
+			}
+		},
+		WroteResponse: func(info martian.WroteResponseInfo) { wrotes++ },
+	}
+	client := martian.NewVfConn([]byte("CONNECT example.com:443 HTTP/1.1\r\nHost: example.com:443\r\n\r\nhello"))
+	martian.VfServeConn(hp.proxy, client)
+	vfrt.Assert(dials == 1, "upstream-reject/one-dial")
+	vfrt.Assert(client.Closed >= 1, "upstream-reject/client-connection-finished")
+	vfrt.Assert(upstream.Closed >= 1, "upstream-reject/dialled-connection-closed-whatever-the-upstream-answered")
+	vfrt.Assert(reads >= 1 && wrotes == reads, "upstream-reject/exchange-reported-complete-once")
+	if kind == 0 {
+		vfrt.Reach("upstream-accept-closed")
+	} else {
+		vfrt.Reach("upstream-reject-closed")
+	}
+}
